@@ -46,6 +46,11 @@ func genProgPlain(r *ref.R) *mon.Prog {
 		case 4, 5:
 			p.Steps = append(p.Steps, mon.Step{Op: "status", Code: ref.Pick(r, progCodes)})
 		default:
+			if r.Chance(1, 3) { // text with multi-byte characters through io.WriteString: Content-Length counts bytes
+				t := ref.Pick(r, []string{"中文", "héllo wörld", "ß", "日本語のテキスト\n", "plain ascii", "\u212a\u017f", "a\xffb"})
+				p.Steps = append(p.Steps, mon.Step{Op: "write", N: len(t), Val: t})
+				continue
+			}
 			p.Steps = append(p.Steps, mon.Step{Op: "write", N: ref.Pick(r, progSizes)})
 		}
 	}
